@@ -140,7 +140,9 @@ func (cf *convFunc) scanArm(arm *convArm, node ast.Node, sv, ret types.Object, f
 			}
 		case *ast.ReturnStmt:
 			if len(x.Results) >= 1 {
-				if tv, ok := info.Types[x.Results[0]]; !ok || !tv.IsNil() {
+				// `return nil, err` of a two-result function is the error path; a
+				// single-result function returning nil produces nil as its value
+				if tv, ok := info.Types[x.Results[0]]; !ok || !tv.IsNil() || len(x.Results) == 1 {
 					arm.results = append(arm.results, x.Results[0])
 				}
 				if len(x.Results) == 2 {
